@@ -125,7 +125,9 @@ def run(ctx):
     memo_rule(ctx, 'R06e', 'SuperNetCombiner.get_cost', gc, 1, 2)
     sgc = repo.cls('SuperNet').methods['_get_single_cost']
     memo_rule(ctx, 'R06e', 'SuperNet._get_single_cost', sgc, 1, 2)
-    from .c04 import accumulation_rule
+    from .c04 import accumulation_rule, leaf_lists_rule, lookup_key_rule
+    lookup_key_rule(ctx, 'R06h', 'SuperNet')
+    leaf_lists_rule(ctx, 'R06g', 'SuperNet')
     accumulation_rule(ctx, 'R06f', 'SuperNet._get_single_cost', sgc)
     accumulation_rule(ctx, 'R06f', 'SuperNetCombiner.get_cost', gc, keep=KEEP)
     for p in returning(paths(repo, fwd)):
